@@ -88,7 +88,7 @@ CHECKS = {
         True,
         "Lean 4 model of the block reading loop (text and binary) with raw-storing blocks and a regex AST matched by derivatives + Spec.C12.holds (dispatch refinement, accounting, write = input) + differential correspondence",
         "Spec.C12.holds: elements = readBlockFile (first declared block whose begin pattern is found in the peeked unit, else one default line), stored raw data concatenate to the input, writing reproduces the input exactly, in text and binary storage.",
-        "Trusted: Lean kernel; model; Python re for the AST subset (correspondence only); harness raw-storing block classes.",
+        "Trusted: Lean kernel; model; that Python re gives the rendered pattern the declarative meaning of the AST (correspondence only — the model's own matcher is proved against that meaning: Proofs/RegexLaw.lean, Cfi.Regex.search_iff, Props.C12.dispatch_first_found / dispatch_none_found); harness raw-storing block classes.",
         "6/C12",
     ),
     "C13": (
@@ -108,7 +108,7 @@ CHECKS = {
     "C14": (
         True,
         "Lean 4 proof that what a line writes/reads is independent of the scratch slots of shared Field objects + metamorphic correspondence: every object's observations in a random interleaved history vs. an isolated replay of its own operations on the real code",
-        "World model (class-level LINE objects with slots, registers, files) with non-interference theorems Props.C14.reg_noninterference, file_noninterference, new_files_independent, write_output_local, step_frame_reg/file; slot theorems assign_overwrites, write_independent_of_slots, read_is_function_of_line. The World model is run on every generated history and compared with the real classes; each object's observations in the interleaved run are compared with an isolated replay on the real code; default-constructor clauses in text and binary storage.",
+        "World model (class-level LINE objects with slots, registers, files) with non-interference theorems Props.C14.reg_noninterference, file_noninterference, new_files_independent, write_output_local, step_frame_reg/file; slot theorems assign_overwrites, write_independent_of_slots, read_is_function_of_line; containers_independent (Proofs/ContainerFrame.lean: two containers over one store of element links — after any admissible history on one container, a container with no member in common still represents its list, stale links of elements outside both notwithstanding). The World model is run on every generated history and compared with the real classes; each object's observations in the interleaved run are compared with an isolated replay on the real code; default-constructor clauses in text and binary storage.",
         "Partial: Python aliasing (which expressions create new objects) is represented by hand in the model; the interleaving-vs-isolated comparison is impl-vs-impl and is what exercises it on the real code. Trusted: Lean kernel, harness.",
         "6/C14",
     ),
